@@ -333,16 +333,37 @@ def window_rule(F, R):
     ZERO = expand_consts('const frame::Frame::ZERO')
     init = [s for _, _, s in b.stmts() if s['k'] == 'assign' and s['rv']['k'] == 'repeat' and s['lhs'].get('ty', '').startswith('[frame::Frame')]
     ok_init = len(init) == 1 and expand_consts(describe(b, init[0]['rv']['op'])) == ZERO
-    stores = [(bb, expand_consts(describe_rv(b, s['rv'], depth=8, at=bb))) for bb, _, s in b.stmts()
-              if s['k'] == 'assign' and s['lhs']['p'] and s['lhs'].get('ty') == 'frame::Frame']
+    from ..facts import op_local
+
+    def values(bb, rv):
+        """descriptions of the value(s) a store writes: a temporary assigned on several branches (a `match`) is followed"""
+        if rv['k'] == 'use':
+            l = op_local(rv['op'])
+            ds = b.defs().get(l, []) if l is not None and not rv['op'].get('pl', {}).get('p') else []
+            if len(ds) > 1 and b.local_name(l) is None:
+                out = []
+                for d in ds:
+                    if d[0] == 'stmt':
+                        out += values(d[1], d[3]['rv'])
+                    else:
+                        out.append('%s(..)' % (callee_path(d[2]) or '?'))
+                return out
+        return [expand_consts(describe_rv(b, rv, depth=8, at=bb))]
+    stores = []
+    for bb, _, s in b.stmts():
+        if s['k'] == 'assign' and s['lhs']['p'] and s['lhs'].get('ty') == 'frame::Frame':
+            for d in values(bb, s['rv']):
+                stores.append((bb, d))
     bad = []
     for bb, d in stores:
         good = False
-        if 'Iterator>::next(' in d or 'Iterator>::next_back(' in d:
-            if d.startswith('std::option::Option::<T>::unwrap_or(') and d.endswith(', %s)' % ZERO):
-                good = True
-            if d.startswith('std::option::Option::<T>::unwrap_or_default('):
-                good = True
+        from_ring = 'Iterator>::next(' in d or 'Iterator>::next_back(' in d
+        if from_ring and d.startswith('std::option::Option::<T>::unwrap_or(') and d.endswith(', %s)' % ZERO):
+            good = True
+        if from_ring and d.startswith('std::option::Option::<T>::unwrap_or_default('):
+            good = True
+        if from_ring and d.rstrip(')').endswith('.frame') and 'unwrap_or' not in d:
+            good = True       # the frame of a buffered entry (`Some(entry) => entry.frame`, or zipped with the window)
         if d == ZERO:
             good = True
         if not good:
